@@ -17,6 +17,7 @@ import Babylon.Counter.LemmasKinds
 import Babylon.Counter.LemmasCmp
 import Babylon.Counter.LemmasLocal
 import Babylon.Counter.Conc
+import Babylon.Counter.View
 import Babylon.Counter.Pinned
 
 namespace Babylon.Properties.C19
@@ -249,6 +250,51 @@ theorem adder_concurrent_bounds_nonneg (s : Conc.CState) (hr : Reachable (· = C
   have := hI.finished res hres hidle
   rw [hN.2] at this
   omega
+
+/-! ## Reads that overlap adds, under the release/acquire view model (stale reads allowed) -/
+
+/-- **adder_view_bounds.**  Over `Core/MemView` (a load returns ANY message its view admits), for every
+cell type and contribution (`K`: adder `+`, summer pair in one message, maxer / miner `put`), for ALL
+load / store / hand-off orders `O`, every interleaving and every choice of stale messages: the value the
+reader's load of slot `x` returned is the value after a PREFIX `k` of that slot's contributions —
+nothing invented, torn or duplicated — with `hb ≤ k ≤ completed`, `hb` = the reader's view of the cell
+when it loaded (every contribution that happens-before the load is included).  A `value()` is the
+aggregate of such loads: `Σ_x K.pre (contribs x) k_x`. -/
+theorem adder_view_bounds {α γ : Type} (K : View.Kind α γ) (O : View.Ords) (s : View.State α γ)
+    (hr : Reachable (· = View.State.init K) (View.Step K O) s) (x : Nat) (a : α) (hb : Nat)
+    (hg : s.got x = some (a, hb)) :
+    ∃ k, hb ≤ k ∧ k ≤ (s.contribs x).length ∧ a = K.pre (s.contribs x) k :=
+  (View.reach_inv K O s hr).gotOk x a hb hg
+
+/-- **adder_view_handoff.**  Contributions handed off to the reader by a release store / acquire load
+(what a `join` provides) are in its view: a load of the cell made afterwards returns a prefix `k` that
+includes all `seen x` of them. -/
+theorem adder_view_handoff {α γ : Type} (K : View.Kind α γ) (O : View.Ords) (s t : View.State α γ)
+    (hr : Reachable (· = View.State.init K) (View.Step K O) s) (x ts : Nat)
+    (h : View.step K O s (.rLoad x ts) = some t) :
+    ∃ a hb k, t.got x = some (a, hb) ∧ s.seen x ≤ k ∧ hb ≤ k ∧ k ≤ (t.contribs x).length ∧
+      a = K.pre (t.contribs x) k :=
+  View.rLoad_covers K O (View.reach_inv K O s hr) h
+
+/-- **gen_view_orders.**  No order on the cells matters: the bound holds with relaxed loads and relaxed
+stores (the code's cells are plain, single-writer words — only per-location coherence is used), whatever
+the hand-off orders.  What the "completed before the read" clause does need is a synchronising EXTERNAL
+hand-off, see the negative control below. -/
+theorem gen_view_orders {α γ : Type} (K : View.Kind α γ) (oR oA : Ord) (s : View.State α γ)
+    (hr : Reachable (· = View.State.init K) (View.Step K ⟨.rlx, .rlx, oR, oA⟩) s) (x : Nat) (a : α) (hb : Nat)
+    (hg : s.got x = some (a, hb)) :
+    ∃ k, hb ≤ k ∧ k ≤ (s.contribs x).length ∧ a = K.pre (s.contribs x) k :=
+  adder_view_bounds K _ s hr x a hb hg
+
+/-- **Negative control.**  One contribution of 5 is completed and handed off through the flag; the reader
+has read the flag (value 1).  With a release / acquire hand-off the stale message of the cell is no longer
+admissible and the load returns 5; with a RELAXED hand-off store (or a relaxed hand-off load) the reader may
+still read the initial message and miss the completed contribution. -/
+theorem view_handoff_negative_control :
+    View.handoffRun ⟨.rlx, .rlx, .rel, .acq⟩ 0 = none ∧
+    View.handoffRun ⟨.rlx, .rlx, .rel, .acq⟩ 1 = some (some (5, 1)) ∧
+    View.handoffRun ⟨.rlx, .rlx, .rlx, .acq⟩ 0 = some (some (0, 0)) ∧
+    View.handoffRun ⟨.rlx, .rlx, .rel, .rlx⟩ 0 = some (some (0, 0)) := by decide
 
 /-! ## The `uint16_t` narrowing: the hypothesis `tidEnd ≤ tidCap` is necessary -/
 
